@@ -1348,8 +1348,8 @@ func sortedStrKeys(m map[string]string) []string {
 	return ks
 }
 
-var c09IdxCands = [][2]uint32{{0, 900}, {0, 901}, {0, 280}, {1001, 900}, {1001, 910}, {1002, 910}, {1001, 901}, {1002, 900}, {4242, 900}, {0, 910}, {0xffffffff, 900}, {0xffffffff, 901}}
-var c09Names = []string{"XA", "XB", "DW", "YA", "YC", "ZC", "CE"}
+var c09IdxCands = [][2]uint32{{0, 900}, {0, 901}, {0, 280}, {1001, 900}, {1001, 910}, {1002, 910}, {1001, 901}, {1002, 900}, {4242, 900}, {0, 910}, {0xffffffff, 900}, {0xffffffff, 901}, {1002, 8388700}, {1003, 8388700}, {1002, 8388701}}
+var c09Names = []string{"XA", "XB", "DW", "YA", "YC", "ZC", "CE", "ZV"}
 
 func (w *srvWorld) snapshot() {
 	if w.regHist == nil {
